@@ -31,16 +31,19 @@ def _gauss(ctx, x, sigma):
     return math.exp(-x * x / (2 * sigma * sigma)) / math.sqrt(2 * sigma * sigma * math.pi)
 
 
-def h_s2(ctx, d, N, types, ndelta, ppp, cell):
+def h_s2(ctx, d, N, types, ndelta, ppp, cell, F=1, all_inside=False):
+    """`types` is one list (used for every frame) or one list per frame (per-id types may change between frames, e.g. swap
+    Monte Carlo with constant composition): every frame must be evaluated with its own types"""
     ctx.covers(FUNCS[0], FUNCS[1], FUNCS[5])
     pe = ctx.repo("PyMatterSim.static.pairentropy")
     ru = ctx.repo("PyMatterSim.reader.reader_utils")
     sym = ctx.mode == "sym"
     rows = C.make_cell(ctx, d, cell)
-    pos = [[ctx.real(f"p{i}_{a}") for a in range(d)] for i in range(N)]
-    snap = C.snapshot(ctx, ru, 0, types, C.farr(ctx, pos), rows)
-    S = ru.Snapshots(nsnapshots=1, snapshots=[snap])
-    K = max(types)
+    types_f = types if isinstance(types[0], list) else [types] * F
+    poss = [[[ctx.real(f"p{f}_{i}_{a}" if F > 1 else f"p{i}_{a}") for a in range(d)] for i in range(N)] for f in range(F)]
+    snaps = [C.snapshot(ctx, ru, f, types_f[f], C.farr(ctx, poss[f]), rows) for f in range(F)]
+    S = ru.Snapshots(nsnapshots=F, snapshots=snaps)
+    K = max(max(t) for t in types_f)
     sg = [[ctx.real(f"w{min(a, b)}{max(a, b)}", positive=True) for b in range(K)] for a in range(K)]
     delta = ctx.real("delta", positive=True)
     pi_ = O.pi(ctx)
@@ -50,50 +53,61 @@ def h_s2(ctx, d, N, types, ndelta, ppp, cell):
     rho = N / V
     bins = [(k + Fraction(1, 2)) * delta if sym else (k + 0.5) * delta for k in range(ndelta)]
     rmax = bins[-1]
-    D = {}
-    for i in range(N):
-        for j in range(N):
-            if i != j:
-                v = C.min_image(ctx, [pos[j][a] - pos[i][a] for a in range(d)], rows, ppp)
-                D[(i, j)] = O.sqrt(C.norm2(v))
-                if i < j:
-                    ctx.assume(O.gt(C.norm2(v), 0) if sym else C.norm2(v) > 1e-12)
+    Ds = []
+    for f in range(F):
+        D = {}
+        for i in range(N):
+            for j in range(N):
+                if i != j:
+                    v = C.min_image(ctx, [poss[f][j][a] - poss[f][i][a] for a in range(d)], rows, ppp)
+                    D[(i, j)] = O.sqrt(C.norm2(v))
+                    if i < j:
+                        ctx.assume(O.gt(C.norm2(v), 0) if sym else C.norm2(v) > 1e-12)
+                        if all_inside:      # every pair within the integration range (no fork on the r < r_max filter)
+                            ctx.assume(O.lt(C.norm2(v), rmax * rmax) if sym else C.norm2(v) < rmax * rmax)
+        Ds.append(D)
     obj = pe.S2(S, sigmas=C.farr(ctx, sg), ppp=np.array(ppp), rdelta=delta, ndelta=ndelta)
     res = obj.particle_s2()
     ctx.output("s2", res)
-    ctx.oblige("shape", tuple(res.shape) == (1, N))
-    for i in range(N):
-        g = []
-        for k in range(ndelta):
-            tot = 0
-            for j in range(N):
-                if j == i:
-                    continue
-                inside = bool(O.lt(D[(i, j)], rmax))
-                if inside:
-                    tot = tot + _gauss(ctx, bins[k] - D[(i, j)], sg[types[i] - 1][types[j] - 1])
-            norm = (2 * bins[k] * rho * pi_) if d == 2 else (4 * bins[k] * bins[k] * rho * pi_)
-            g.append(tot / norm)
-        if any(isinstance(x, int) and x == 0 for x in g):
-            continue          # no neighbour within range: g = 0 and g ln g is 0*log 0 (outside the claim)
-        if not sym and any((not (x > 1e-300)) or not math.isfinite(x) for x in g):
-            ctx.assume(False)      # underflow of the Gaussian: g ln g is 0*(-inf) in floating point, outside the real-number claim
-        ys = []
-        for k in range(ndelta):
-            lg = O.log(g[k])
-            ys.append((g[k] * lg - g[k] + 1) * bins[k] ** (d - 1))
-        integ = 0
-        for k in range(ndelta - 1):
-            integ = integ + (bins[k + 1] - bins[k]) * (ys[k] + ys[k + 1]) / 2
-        ctx.oblige(f"S2[{i}]", O.eq(res[0, i], -(d - 1) * pi_ * rho * integ, rtol=1e-6, atol=1e-9))
+    ctx.oblige("shape", tuple(res.shape) == (F, N))
+    for f in range(F):
+        D, tys = Ds[f], types_f[f]
+        for i in range(N):
+            g = []
+            for k in range(ndelta):
+                tot = 0
+                for j in range(N):
+                    if j == i:
+                        continue
+                    inside = bool(O.lt(D[(i, j)], rmax))
+                    if inside:
+                        tot = tot + _gauss(ctx, bins[k] - D[(i, j)], sg[tys[i] - 1][tys[j] - 1])
+                norm = (2 * bins[k] * rho * pi_) if d == 2 else (4 * bins[k] * bins[k] * rho * pi_)
+                g.append(tot / norm)
+            if any(isinstance(x, int) and x == 0 for x in g):
+                continue          # no neighbour within range: g = 0 and g ln g is 0*log 0 (outside the claim)
+            if not sym and any((not (x > 1e-300)) or not math.isfinite(x) for x in g):
+                ctx.assume(False)      # underflow of the Gaussian: g ln g is 0*(-inf) in floating point, outside the real-number claim
+            ys = []
+            for k in range(ndelta):
+                lg = O.log(g[k])
+                ys.append((g[k] * lg - g[k] + 1) * bins[k] ** (d - 1))
+            integ = 0
+            for k in range(ndelta - 1):
+                integ = integ + (bins[k + 1] - bins[k]) * (ys[k] + ys[k + 1]) / 2
+            ctx.oblige(f"S2[{f},{i}]" if F > 1 else f"S2[{i}]", O.eq(res[f, i], -(d - 1) * pi_ * rho * integ, rtol=1e-6, atol=1e-9))
 
 
-def h_tetra(ctx, N, kind, fixed=0, symcoords=3):
+def h_tetra(ctx, N, kind, fixed=0, symcoords=3, cell=None):
     ctx.covers(FUNCS[2])
     ge = ctx.repo("PyMatterSim.static.geometric")
     ru = ctx.repo("PyMatterSim.reader.reader_utils")
     sym = ctx.mode == "sym"
     rows = [[C.const(ctx, 50) if a == b else 0 for b in range(3)] for a in range(3)]
+    ppp = [0, 0, 0]
+    if cell is not None:          # periodic (possibly triclinic) cell: bonds are minimum-image vectors
+        rows = C.make_cell(ctx, 3, cell)
+        ppp = [1, 1, 1]
     if kind == "perfect":
         s = ctx.real("scale", positive=True)
         if not sym and not s > 0:
@@ -106,15 +120,25 @@ def h_tetra(ctx, N, kind, fixed=0, symcoords=3):
                      ["5/4", "7/6", "-1/9"], ["-8/7", "1/11", "6/5"]]
         pos = [[(C.const(ctx, fixed_pos[i][a]) if (i < fixed or a >= symcoords) else ctx.real(f"p{i}_{a}")) for a in range(3)]
                for i in range(N)]
+        if cell is not None:
+            # periodic run: the free coordinates range over one unit (keeps the number of image combinations, i.e. paths, small)
+            for i in range(fixed, N):
+                for a in range(min(symcoords, 3)):
+                    x = pos[i][a]
+                    ctx.assume(O.And(O.ge(x, -Fraction(1, 2)), O.le(x, Fraction(1, 2))) if sym else (-0.5 <= x <= 0.5))
     N = len(pos)
-    D2 = {}
+    D2, BV = {}, {}
+    for i in range(N):
+        for j in range(N):
+            if i != j:
+                BV[(i, j)] = C.min_image(ctx, [pos[j][a] - pos[i][a] for a in range(3)], rows, ppp)
     for i in range(N):
         for j in range(i + 1, N):
-            D2[(i, j)] = D2[(j, i)] = sum((pos[i][a] - pos[j][a]) ** 2 for a in range(3))
+            D2[(i, j)] = D2[(j, i)] = C.norm2(BV[(i, j)])
             ctx.assume(O.gt(D2[(i, j)], 0) if sym else D2[(i, j)] > 1e-12)
     snap = C.snapshot(ctx, ru, 0, [1] * N, C.farr(ctx, pos), rows)
     S = ru.Snapshots(nsnapshots=1, snapshots=[snap])
-    res = ge.q8_tetrahedral(S, ppp=np.array([0, 0, 0]))
+    res = ge.q8_tetrahedral(S, ppp=np.array(ppp))
     ctx.output("q", res)
     ctx.oblige("shape", tuple(res.shape) == (1, N))
     centres = [0] if kind == "perfect" else range(N)
@@ -141,7 +165,7 @@ def h_tetra(ctx, N, kind, fixed=0, symcoords=3):
         for a in range(4):
             for b in range(a + 1, 4):
                 j, k = nearest[a], nearest[b]
-                dot = sum((pos[j][c] - pos[i][c]) * (pos[k][c] - pos[i][c]) for c in range(3))
+                dot = sum(BV[(i, j)][c] * BV[(i, k)][c] for c in range(3))
                 cs = dot / (O.sqrt(D2[(i, j)]) * O.sqrt(D2[(i, k)]))
                 third = Fraction(1, 3) if sym else 1.0 / 3
                 tot = tot + (cs + third) ** 2
@@ -269,7 +293,9 @@ def h_gyr(ctx, N, d):
 
 def cfg_s2(tier, seed):
     out = [dict(d=2, N=2, types=[1, 2], ndelta=2, ppp=[0, 0], cell="o"), dict(d=3, N=2, types=[1, 1], ndelta=3, ppp=[0, 0, 0], cell="o"),
-           dict(d=2, N=2, types=[2, 1], ndelta=3, ppp=[1, 1], cell="o")]
+           dict(d=2, N=2, types=[2, 1], ndelta=3, ppp=[1, 1], cell="o"),
+           # two frames, per-id types exchanged between the frames (same composition)
+           dict(d=2, N=3, F=2, types=[[1, 1, 2], [1, 2, 1]], ndelta=2, ppp=[0, 0], cell="o", all_inside=True)]
     if tier == "thorough":
         out.append(dict(d=2, N=3, types=[1, 2, 1], ndelta=2, ppp=[0, 0], cell="o"))
         out.append(dict(d=3, N=2, types=[1, 2], ndelta=3, ppp=[1, 1, 1], cell="t-"))
@@ -277,8 +303,10 @@ def cfg_s2(tier, seed):
 
 
 def cfg_tetra(tier, seed):
-    out = [dict(N=5, kind="perfect"), dict(N=5, kind="general", fixed=4, symcoords=1)]
+    out = [dict(N=5, kind="perfect"), dict(N=5, kind="general", fixed=4, symcoords=1),
+           dict(N=5, kind="general", fixed=4, symcoords=1, cell="t-")]
     if tier == "thorough":
+        out.append(dict(N=5, kind="general", fixed=4, symcoords=2, cell="t+"))
         out.append(dict(N=5, kind="general", fixed=4))
         out.append(dict(N=6, kind="general", fixed=5))
         out.append(dict(N=5, kind="general", fixed=3))
@@ -301,5 +329,5 @@ def cfg_gyr(tier, seed):
     return out
 
 
-HARNESSES = [H("pair_entropy", h_s2, cfg_s2, timeout_ms=30000), H("tetrahedral", h_tetra, cfg_tetra, timeout_ms=30000),
+HARNESSES = [H("pair_entropy", h_s2, cfg_s2, timeout_ms=30000), H("tetrahedral", h_tetra, cfg_tetra, timeout_ms=30000, rint_pin=True),
              H("nematic", h_nematic, cfg_nem, timeout_ms=30000), H("gyration", h_gyr, cfg_gyr, timeout_ms=30000, abstract=True)]
